@@ -531,3 +531,9 @@ def run(rep: Report, prog: Program, tier: str) -> None:
     forwarding(rep, prog)
     twins(rep, prog)
     call_vs_execute(rep, prog, tier)
+    # Policy level: call() and execute() make the same breaker record for the same ending
+    rep.rule("R12.4", "Policy/AsyncPolicy: exactly one breaker record per admitted call in call() and in execute() (re-run of C09 R9.1)")
+    rep.rule("R12.4b", "Policy/AsyncPolicy: call() and execute() record the same kind for the same ending - value: success; abort: cancel; every other stop (failure, exhaustion, deferral): failure (= C09 R9.2, one table for both entry points)")
+    from .c09 import record_by_outcome
+
+    record_by_outcome(rep, "R12.4", "R12.4b", prog)
